@@ -96,7 +96,7 @@ def scenarios(ctx, sync=False):
 
     async def tee_locked():
         lock = SLock(ctx) if not sync else None
-        t = a.tee(src(), 2, lock=lock) if lock else a.tee(src(), 2)
+        t = a.tee(src(), 2, lock=lock) if lock is not None else a.tee(src(), 2)
         x = await a.anext(t[0])
         y = await a.anext(t[1])
         z = await a.anext(t[1])
@@ -293,6 +293,21 @@ def run(tier, seed):
                     if whyf:
                         fails += 1
                         rep.violation("loop-agnostic:%s" % name, {"tool": name, "params": repr(c.params), "srcs": repr(c.srcs), "callables": fl, "why": whyf})
+                if why is None and c.plan is None and c.tool.kind != "script":
+                    # sources whose __anext__ / aclose hand back awaitable *objects* (not coroutines): same suspensions, same
+                    # replies delivered, same result
+                    G.AWAITABLE_OBJECT_SOURCES["on"] = True
+                    try:
+                        ro = run_impl(c, suspend=True, reply=True)
+                    finally:
+                        G.AWAITABLE_OBJECT_SOURCES["on"] = False
+                    whyo = verify(ro["ctx"], ro["tokens"], "%s %r (sources returning awaitable objects)" % (name, c.params))
+                    if whyo is None and (len(ro["tokens"]) != len(r["tokens"]) or ro["outcome"][:2] != r["outcome"][:2]):
+                        whyo = "%s %r over sources whose __anext__ returns an awaitable object: %d suspensions and outcome %r, with coroutine methods %d and %r" % (
+                            name, c.params, len(ro["tokens"]), ro["outcome"][:2], len(r["tokens"]), r["outcome"][:2])
+                    if whyo:
+                        fails += 1
+                        rep.violation("loop-agnostic:%s" % name, {"tool": name, "params": repr(c.params), "srcs": repr(c.srcs), "sources": "awaitable objects", "why": whyo})
                 # with non-suspending arguments the operation must not suspend at all
                 r0 = run_impl(c)
                 if r0["outcome"][0] == "exn" and r0["outcome"][1] == ("other", "RuntimeError") and "unexpected suspension" in repr(r0["outcome"][2:]):
